@@ -2,12 +2,12 @@ package main
 
 import (
 	"fmt"
-	"sort"
-	"strings"
 	"go/token"
 	"go/types"
 	"os"
 	"path/filepath"
+	"sort"
+	"strings"
 
 	"golang.org/x/tools/go/ssa"
 )
